@@ -13,6 +13,8 @@ import PyxModel.Prebuild.Canon
     ACT_AI 'assign ' l ' = ' r        ACT_RET 'return ' [value]        ACT_BRK/CON/CTL
     ACT_CR / ACT_CNV / ACT_DEL / ACT_REL / ACT_RU / ACT_UNR / ACT_URU / ACT_FIO / ACT_FIW / ACT_SEL(+ACT_SRW, ACT_LNK chain)
     ACT_FOR / ACT_WHL / ACT_IF (+ACT_EL in source order, ACT_E)        ACT_FNC / 'bridge ' ACT_BRG / ACT_TFM
+    E_ESS: E_GES 'generate ' event | E_CES 'create event instance ' var ' of ' event, '(' data items ')' ' to ' receiver
+    E_GPR 'generate ' value
     every statement of a block followed by ';'
 
   Layout (blanks, line breaks, indentation) is not part of the token level; the character level is covered by
@@ -91,6 +93,21 @@ def genChain : List Step → List Tok
   | [] => []
   | s :: rest => genStep s ++ genChain rest
 
+/-- `accept_SM_EVT`: Drv_Lbl ":'" Mning "'" — the meaning is printed from the model; for a name-resolved body it
+    is the meaning the source states (a body that omits it is outside the supported set) -/
+def genEvtSpec (label : String) (meaning : Option String) (data : Params) : List Tok :=
+  match meaning with
+  | some m => [ident label, p colon, phrase m, p lpar] ++ genParams data ++ [p rpar]
+  | none => [bad label]
+
+/-- `accept_E_GSME` / `accept_E_CSME`: ' to ' then the instance variable, `KL class` or `KL creator` -/
+def genTo : EvtTo → List Tok
+  | .cls kl => [ident kl, kw class_]
+  | .creator kl => [ident kl, kw creator]
+  | .inst .self => [kw self_]
+  | .inst (.var v) => [ident v]
+  | .inst _ => [bad "to"]
+
 mutual
   def genStmt : Stmt → List Tok
     | .assign l r => [kw assign] ++ genExpr l ++ [p eq] ++ genExpr r
@@ -121,6 +138,10 @@ mutual
     | .invoke (.call .bridge nsp name ps) => kw bridge :: genExpr (.call .bridge nsp name ps)
     | .invoke (.icall h name ps) => kw transform :: genExpr (.icall h name ps)
     | .invoke e => genExpr e
+    | .genEvt l m d tgt => [kw generate] ++ genEvtSpec l m d ++ [kw to] ++ genTo tgt
+    | .createEvt v l m d tgt =>
+        [kw create, kw event, kw instance_, ident v, kw of_] ++ genEvtSpec l m d ++ [kw to] ++ genTo tgt
+    | .genPre e => [kw generate] ++ genExpr e
   def genBlock : Block → List Tok
     | .nil => []
     | .cons s rest => genStmt s ++ [p semi] ++ genBlock rest
